@@ -157,7 +157,7 @@ impl Property for C08 {
         ]
     }
     fn expected_probes(&self) -> Vec<&'static str> {
-        vec!["path_cpu_c000_bank7", "shadow_displayed", "flash_runs_checked", "beam_before", "beam_after", "path_poke", "path_sna", "path_szx", "path_scr", "path_fastload", "path_fastload_part", "path_fastload_c000", "path_cpu_words", "first_frame_after_host_write", "snapshot_saved_with_sp_in_screen", "screen_selected_with_lock_bit", "beam_host_write", "beam_paging_write_same_frame"]
+        vec!["path_cpu_c000_bank7", "shadow_displayed", "flash_runs_checked", "beam_before", "beam_after", "path_poke", "path_sna", "path_szx", "path_scr", "path_fastload", "path_fastload_part", "path_fastload_c000", "path_cpu_words", "first_frame_after_host_write", "snapshot_saved_with_sp_in_screen", "screen_selected_with_lock_bit", "beam_host_write", "beam_paging_write_same_frame", "beam_inside_attribute_row", "multi_frame_call_stopped_by_breakpoint"]
     }
 
     fn gen(&self, rng: &mut Rng, tier: Tier, idx: u64) -> Scenario {
@@ -191,6 +191,7 @@ impl Property for C08 {
                 sc.set("shadow", (m128 && rng.bool()) as i64);
                 sc.set("chunk", *rng.pick(&[0i64, 1, 100, 4096]));
                 sc.set("frames", rng.range(2, 5));
+                sc.set("multi_stop", if rng.chance(1, 3) { rng.range(1, 12) } else { 0 });
                 sc.set("szx_seed", (rng.next() >> 2) as i64);
             }
             1 => {
@@ -209,6 +210,7 @@ impl Property for C08 {
                 sc.set("y", y);
                 sc.set("col", rng.range(0, 31));
                 sc.set("attr", rng.bool() as i64);
+                sc.set("inside", rng.chance(1, 3) as i64);
                 sc.set("before", rng.bool() as i64);
                 sc.set("lines", rng.range(2, 40));
                 sc.set("writer", rng.range(0, 2));
@@ -446,6 +448,28 @@ impl Property for C08 {
                 // host-side paths that finished before the beam reached the picture area: already the first
                 // frame delivered afterwards is the decode
                 let early = e.verif_frame_clocks() < 14000 && matches!(path, 0 | 3 | 4 | 5 | 6 | 8);
+                // a host asking for several frames per call, stopped by a breakpoint in the middle of the run: the
+                // picture presented at the stop is the last completed frame, i.e. (two frames or more after the
+                // write) the decode of the screen memory
+                if sc.get("multi_stop") != 0 {
+                    let nth = [9000u64, 14000, 20000, 40000][(sc.get("multi_stop") as usize) % 4];
+                    set_break_mode(&mut e, BreakMode::EveryNth(nth));
+                    e.set_speed(rustzx_core::EmulationMode::FrameCount(3 + (sc.get("multi_stop") as usize / 4) % 3));
+                    let mut passed = 0usize;
+                    for _ in 0..40 {
+                        let r = e.emulate_frames(LONG).map_err(|x| Fail::new("C08.run", "", format!("{:?}", x)))?;
+                        passed += e.verif_passed_frames();
+                        if r.stop_reason == rustzx_core::EmulationStopReason::Breakpoint {
+                            if passed >= 2 && e.verif_passed_frames() >= 1 {
+                                ctx.probe("multi_frame_call_stopped_by_breakpoint");
+                                check_frame(&mut e, m128, shadow, pname, ctx)?;
+                            }
+                        } else {
+                            break;
+                        }
+                    }
+                    set_break_mode(&mut e, BreakMode::Never);
+                }
                 run_frames(&mut e, 1).map_err(|x| Fail::new("C08.run", "", x))?;
                 if early {
                     ctx.probe("first_frame_after_host_write");
@@ -585,7 +609,12 @@ impl Property for C08 {
                 let first = if m128 { 14362u64 } else { 14336 };
                 // beam position of the affected cell(s): an attribute byte affects 8 pixel lines
                 let (y_first, y_last) = if is_attr { ((y / 8) * 8, (y / 8) * 8 + 7) } else { (y, y) };
-                let t_w = if before {
+                // attribute bytes also change while the beam is inside their character row: the pixel lines still
+                // at least two lines ahead show the new colours in this very frame
+                let inside = is_attr && sc.get("inside") != 0;
+                let t_w = if inside {
+                    first + (y_first as u64 + (lines % 8)) * line_t + col as u64 * 4
+                } else if before {
                     (first + y_first as u64 * line_t + col as u64 * 4).saturating_sub(lines * line_t + 8)
                 } else {
                     first + y_last as u64 * line_t + col as u64 * 4 + lines * line_t
@@ -644,8 +673,27 @@ impl Property for C08 {
                 let mut mem_new = s2.clone();
                 mem_new[off] = new;
                 mem_old[off] = old;
-                let exp_now = screen::decode(if before { &mem_new } else { &mem_old }, false);
-                if before {
+                let mut exp_now = screen::decode(if before { &mem_new } else { &mem_old }, false);
+                if inside {
+                    ctx.probe("beam_inside_attribute_row");
+                    // per pixel line of the cell: new colours when its fetch lies two lines or more after the
+                    // write, old ones when two lines or more before it, either in between
+                    let (d_old, d_new) = (screen::decode(&mem_old, false), screen::decode(&mem_new, false));
+                    let got = &e.screen_buffer().px;
+                    for yy in y_first..=y_last {
+                        let t_line = first + yy as u64 * line_t + col as u64 * 4;
+                        for x in col * 8..col * 8 + 8 {
+                            let i = yy * 256 + x;
+                            exp_now[i] = if t_line >= t_w + 2 * line_t {
+                                d_new[i]
+                            } else if t_line + 2 * line_t <= t_w {
+                                d_old[i]
+                            } else {
+                                got[i]
+                            };
+                        }
+                    }
+                } else if before {
                     ctx.probe("beam_before");
                 } else {
                     ctx.probe("beam_after");
@@ -653,8 +701,12 @@ impl Property for C08 {
                 if exp_now != e.screen_buffer().px {
                     return Err(Fail::new(
                         "C08.beam_relative",
-                        &format!("before={},attr={},writer={}", before as u8, is_attr as u8, sc.get("writer")),
-                        format!("a byte at line {} column {} changed {} lines {} the beam position (T={}) {} in the frame in which it was written", y, col, lines, if before { "before" } else { "after" }, t_w, if before { "did not appear" } else { "already appeared" }),
+                        &format!("before={},attr={},writer={},inside={}", before as u8, is_attr as u8, sc.get("writer"), inside as u8),
+                        if inside {
+                            format!("the attribute of row {} column {} changed at T={} while the beam was on pixel line {} of that row: a pixel line two or more lines away from the beam shows the wrong colours in that frame", y / 8, col, t_w, lines % 8)
+                        } else {
+                            format!("a byte at line {} column {} changed {} lines {} the beam position (T={}) {} in the frame in which it was written", y, col, lines, if before { "before" } else { "after" }, t_w, if before { "did not appear" } else { "already appeared" })
+                        },
                     ));
                 }
                 run_frames(&mut e, 1).map_err(|x| Fail::new("C08.run", "", x))?;
